@@ -378,8 +378,8 @@ pub fn run_c11_one(tier: &str, rng: &mut Rng, model: &Model, rep: &mut Report, c
     let n = if tier == "thorough" { 20_000 } else { 1_500 };
     for _ in 0..n {
         let sz = *rng.pick(&[1u64, 2, 3, 16, 1000, 1 << 20, 7, 49, (1 << 20) - 1]);
-        let len = match rng.below(6) {
-            0 => rng.range(1000, if tier == "thorough" { 5000 } else { 1500 }) as usize,
+        let len = match rng.below(if tier == "thorough" { 6 } else { 20 }) {
+            0 => rng.range(1000, if tier == "thorough" { 5000 } else { 1300 }) as usize,
             _ => gen::length(rng, &[1, 2, 50, 60], 300),
         };
         let (_, fl) = *rng.pick(gen::FLAVORS);
